@@ -424,6 +424,38 @@ def use_before_def(f):
 
 
 # clause checks on the REAL IR of a logged step (used to attribute an oracle failure to a known finding)
+def existing_dim_in_loop(dim_op):
+    """clause NoExistingDimMove evaluated on the REAL IR before a MoveMemrefDims step: the size the matched dim resolves to is
+    an existing memref.dim that sits under another loop (the pattern detaches it and re-inserts it in front of this loop)"""
+    from xdsl.dialects import memref, scf
+    from xdsl.dialects.builtin import DYNAMIC_INDEX
+
+    def parent_for(o):
+        o = o.parent_op()
+        while o is not None and not isinstance(o, scf.ForOp):
+            o = o.parent_op()
+        return o
+    here = parent_for(dim_op)
+    cur = dim_op
+    for _ in range(64):
+        if not isinstance(cur, memref.DimOp):
+            return False
+        sv = cur.source.owner
+        idx = index_const(cur.index)
+        if not isinstance(sv, memref.SubviewOp) or idx is None:
+            return False
+        st = list(sv.static_sizes.get_values())
+        if not 0 <= idx < len(st) or st[idx] != DYNAMIC_INDEX:
+            return False
+        w = sv.sizes[sum(1 for x in st[:idx] if x == DYNAMIC_INDEX)].owner
+        if not isinstance(w, memref.DimOp):
+            return False
+        if parent_for(w) is not here:
+            return parent_for(w) is not None
+        cur = w
+    return False
+
+
 def step_flags(name, mod_before, op, mod_after):
     from xdsl.dialects import affine, arith, memref, scf, test
     flags = {}
@@ -585,12 +617,13 @@ def rank_of(ty):
 class GenReuse:
     """loop nests with allocations, memref.dim, subviews and affine.min for reuse-memref-allocs"""
 
-    def __init__(self, r, minfirst_nonconst=False, chain_bias=0.12):
+    def __init__(self, r, minfirst_nonconst=False, chain_bias=0.12, multi_bias=0.1):
         self.r = r
         self.n = 0
         self.tags = 0
         self.bad_min = minfirst_nonconst
         self.chain_bias = chain_bias
+        self.multi_bias = multi_bias
 
     def fresh(self, p="v"):
         self.n += 1
@@ -614,6 +647,8 @@ class GenReuse:
         mems = [v for v in vals if v[1] != IDX]
         if r.random() < self.chain_bias:
             return self.chain(ind, vals, out)
+        if r.random() < self.multi_bias:
+            return self.multidim(ind, vals, out)
         if r.random() < 0.22:
             return self.cluster(ind, vals, out)
         if k == "const":
@@ -732,6 +767,82 @@ class GenReuse:
         vals.append((a, "memref<?x?xi8>", "alloc"))
         if r.random() < 0.6:
             out.append(f'{ind}"test.op"({a}) {{tag = "{self.tag()}"}} : (memref<?x?xi8>) -> ()')
+
+    def multidim(self, ind, vals, out):
+        """several `memref.dim` ops with different indices (in any order, repeats allowed) on the SAME subview whose static
+        sizes are pairwise different (non-square tile), possibly mixed with dynamic sizes and with dims of function
+        arguments; the dims feed only allocs / subviews, whose shapes a side-effecting op observes."""
+        r = self.r
+        src = r.choice([v for v in vals if v[1] != IDX and v[2] in ("arg", "arg3")])
+        rk = rank_of(src[1])
+        statics = r.sample([2, 3, 4, 6, 8, 16], rk)
+        n_dyn = r.choice([0, 0, 0, 1]) if rk == 2 else r.choice([0, 0, 1])
+        dyn_at = set(r.sample(range(rk), n_dyn))
+        sizes, shape = [], []
+        for k in range(rk):
+            if k in dyn_at:
+                how = r.choice(["const", "argdim", "arg"])
+                if how == "argdim":
+                    m = r.choice([v for v in vals if v[1] != IDX and v[2] in ("arg", "arg3")])
+                    d = self.fresh("d")
+                    out.append(f'{ind}{d} = "memref.dim"({m[0]}, %c{r.randrange(rank_of(m[1]))}) : ({m[1]}, index) -> index')
+                    vals.append((d, IDX, "dim"))
+                    sizes.append(d)
+                else:
+                    sizes.append(self.pick_idx(vals, prefer=[how]))
+                shape.append("?")
+            else:
+                sizes.append(str(statics[k]))
+                shape.append(str(statics[k]))
+        el = src[1][len("memref<"):].split(",")[0].split("x")[-1].rstrip(">")
+        offs = [self.pick_idx(vals, prefer=["iv", "const"]) for _ in range(rk)]
+        ty = f"memref<{'x'.join(shape)}x{el}, strided<[{', '.join(['?'] * (rk - 1) + ['1'])}], offset: ?>>"
+        sv = self.fresh("sv")
+        out.append(f"{ind}{sv} = memref.subview {src[0]}[{', '.join(offs)}] [{', '.join(sizes)}] [{', '.join(['1'] * rk)}] : "
+                   f"{src[1]} to {ty}")
+        vals.append((sv, ty, "subview"))
+        if r.random() < 0.5:
+            out.append(f'{ind}"test.op"({sv}) {{tag = "{self.tag()}"}} : ({ty}) -> ()')
+        order = list(range(rk))
+        r.shuffle(order)                       # both / all orders of the queried indices
+        if r.random() < 0.3:
+            order.append(r.randrange(rk))      # a repeated query
+        qs = []
+        for a in order:
+            q = self.fresh("d")
+            out.append(f'{ind}{q} = "memref.dim"({sv}, %c{a}) : ({ty}, index) -> index')
+            vals.append((q, IDX, "dim"))
+            qs.append(q)
+            if r.random() < 0.15:              # something unrelated in between
+                v = self.fresh("k")
+                out.append(f"{ind}{v} = arith.constant {r.choice([1, 2, 4])} : index")
+                vals.append((v, IDX, "const"))
+        if r.random() < 0.3:                   # a dim of a function argument next to them
+            m = r.choice([v for v in vals if v[1] != IDX and v[2] in ("arg", "arg3")])
+            q = self.fresh("d")
+            out.append(f'{ind}{q} = "memref.dim"({m[0]}, %c{r.randrange(rank_of(m[1]))}) : ({m[1]}, index) -> index')
+            vals.append((q, IDX, "dim"))
+            qs.append(q)
+        for _ in range(r.choice([1, 1, 2])):
+            al = self.fresh("a")
+            if len(qs) >= 2 and r.random() < 0.8:
+                x, y = r.sample(qs, 2)
+                out.append(f"{ind}{al} = memref.alloc({x}, {y}) : memref<?x?xi8>")
+                aty = "memref<?x?xi8>"
+            else:
+                out.append(f"{ind}{al} = memref.alloc({r.choice(qs)}) : memref<?xi8>")
+                aty = "memref<?xi8>"
+            vals.append((al, aty, "alloc"))
+            out.append(f'{ind}"test.op"({al}) {{tag = "{self.tag()}"}} : ({aty}) -> ()')
+        if r.random() < 0.3:                   # the dims as sizes of another subview
+            x, y = (r.sample(qs, 2) if len(qs) >= 2 else (qs[0], qs[0]))
+            s2 = r.choice([v for v in vals if v[1] in (M0, M1)])
+            e2 = "i8" if s2[1] == M0 else "i32"
+            t2 = f"memref<?x?x{e2}, strided<[?, 1], offset: ?>>"
+            v = self.fresh("sv")
+            out.append(f"{ind}{v} = memref.subview {s2[0]}[%c0, %c0] [{x}, {y}] [1, 1] : {s2[1]} to {t2}")
+            vals.append((v, t2, "subview"))
+            out.append(f'{ind}"test.op"({v}) {{tag = "{self.tag()}"}} : ({t2}) -> ()')
 
     def chain(self, ind, vals, out):
         """`%q = memref.dim %sv, a` feeding only an alloc, where the size of %sv at position a is the dynamic operand
@@ -903,8 +1014,12 @@ class C17(Prop):
                 g = GenReuse(r)
                 yield {"kind": "reuse", "pass": REUSE, "src": g.prog(), "envs": g.envs()}
             elif x < 9:
-                g = GenReuse(r, chain_bias=0.5)
-                yield {"kind": "reuse-chain", "pass": REUSE, "src": g.prog(), "envs": g.envs()}
+                if i % 20 < 10:
+                    g = GenReuse(r, chain_bias=0.5)
+                    yield {"kind": "reuse-chain", "pass": REUSE, "src": g.prog(), "envs": g.envs()}
+                else:
+                    g = GenReuse(r, multi_bias=0.5)
+                    yield {"kind": "reuse-multidim", "pass": REUSE, "src": g.prog(), "envs": g.envs()}
             else:
                 sp = r.choice(["neg", "step0", "iter", "badmin"])
                 if sp == "badmin":
@@ -983,7 +1098,20 @@ class C17(Prop):
             rule = "noop" if was_dropped else RULES.get(name, name)
             st = {"rule": rule, "pattern": name, "path": mp, "before": cb.program(), "raised": exc}
             if after is not None:
-                ma, _, ca = convert(after)
+                try:
+                    ma, _, ca = convert(after)
+                except CaseTimeout:
+                    raise
+                except Exception as e:
+                    # DC17b can leave a use in an OUTER region before the re-inserted definition: the printed IR cannot even be
+                    # parsed back. Accepted only when the clause check on the real IR before the step says so.
+                    if name == "MoveMemrefDims" and type(e).__name__ == "ParseError" and existing_dim_in_loop(op):
+                        st["after"] = "unparsable"
+                        st["flags"] = {"existing_moved": True, "min_replaced": False}
+                        out["steps"].append(st)
+                        out["truncated"] = True
+                        break
+                    raise
                 memo = (after, ma, ca)
                 pa = ca.program()
                 st["after"] = canon(pa["prog"], pa["nargs"])
@@ -992,7 +1120,7 @@ class C17(Prop):
                 st["after"] = None
                 st["flags"] = {}
             out["steps"].append(st)
-        if text_out is not None and log and log[-1][3] is not None:
+        if text_out is not None and log and log[-1][3] is not None and not out.get("truncated"):
             if snaxrun.text(snaxrun.parse(text_out)).strip() != snaxrun.text(snaxrun.parse(log[-1][3])).strip():
                 out["chain_ok"] = False
         return out
@@ -1028,6 +1156,8 @@ class C17(Prop):
                 ms["raised"] = r["error"]
             else:
                 ms["after"] = canon(r["after"], s["before"]["nargs"])
+                if s["after"] == "unparsable" and s["rule"] == "moveDim" and r["nonneg"] is False:
+                    ms["after"] = "unparsable"   # the model agrees that the clause NoExistingDimMove is violated by this step
                 ms["raised"] = None
                 ms["clauses"] = {"perfect": r["perfect"], "nonneg": r["nonneg"], "positive": r["positive"]}
             steps.append(ms)
@@ -1100,7 +1230,7 @@ class C17(Prop):
         except CaseTimeout:
             raise
         except Exception as e:
-            return [{"what": f"{case['pass']} output is not valid IR: {type(e).__name__}: {str(e)[:200]}", "finding": attribute()}]
+            return [{"what": f"{case['pass']} output is not valid IR: {type(e).__name__}: {str(e)[:200]}", "finding": attribute(True)}]
         f1 = find_func(snaxrun.parse(case["src"]))
         for env in case["envs"]:
             t1 = run_func(f1, env)
